@@ -70,14 +70,16 @@ func tf(r *vlib.R) string { return vlib.B(r.Bool()) }
 
 func gen(r *vlib.R, n int, tier string, emit func(string)) {
 	now := time.Now().Unix()
+	// vlib's streams for consecutive seeds are one step apart; re-key so that seeds explore different cases
+	r = vlib.NewR(r.U64() ^ 0xC01C01C01)
 	em := func(op, tags string) {
 		if tags == "" {
 			tags = "t:none"
 		}
 		emit(op + " T=" + strings.ReplaceAll(tags, ",", "+"))
 	}
-	// system level first: about a quarter of the budget in ops, most of the wall time
-	l3ops := n / 4
+	// system level first: about 45% of the budget in ops, most of the wall time
+	l3ops := n * 9 / 20
 	for l3ops > 0 {
 		l3ops -= genL3(r, emit)
 	}
@@ -85,7 +87,7 @@ func gen(r *vlib.R, n int, tier string, emit func(string)) {
 		sys.close()
 		sys = nil
 	}
-	rest := n - n/4
+	rest := n - n*9/20
 	for rest > 0 {
 		switch k := r.Intn(20); {
 		case k < 9:
